@@ -111,14 +111,15 @@ def families(tier):
                 out.append(dict(prop='C16', family='c16.stop', id=f'c16/stop-{sname}-t{tmo}-p{int(par)}-h{hist}-o{"".join(order)}', cfg=cfg, params=dict(state=sname, tmo=tmo),
                                 scn=dict(buses={b: dict(parallel=par, hist=hist) for b in names}, order=order, handlers=hs, main=main, actors=[], forwards=[], settle=1.5)))
     # a producer keeps re-feeding the bus (dispatch, await, short sleep) for 1.2 s while stop(timeout=0.3) is called: the graceful wait must give up at its deadline
-    for n, gap, hshape in itertools.product((12,), (0.1,), ('ret', 'pause')):
+    for n, gap, hshape in itertools.product((12,), (0.1, 0.0), ('ret', 'pause')):
         hs = [dict(bus='A', pat='X', name='hxA', prog=[('ret', 0)] if hshape == 'ret' else [('pause',)])]
         producer = []
         for i in range(n):
-            producer += [('disp', 'A', f'X{i}', 'await'), ('sleep', gap)]
+            producer += [('disp', 'A', f'X{i}', 'await')] + ([('sleep', gap)] if gap else [])
         for t, pre_sleep in itertools.product((0.3,), (0.0, 0.05, 0.15)):
             main = ([('sleep', pre_sleep)] if pre_sleep else []) + [('stop', 'A', t), ('pause',)]
-            out.append(dict(prop='C16', family='c16.stop_while_refed', id=f'c16/refed-{hshape}-t{t}-s{pre_sleep}', cfg=dict(cfg, cap=3000, max_points=200), params=dict(state='refed', tmo=t),
+            # gap 0: the producer never lets the bus rest; virtual time then only passes through the 'slow callbacks' deviation (a pending timer becomes due in mid-burst)
+            out.append(dict(prop='C16', family='c16.stop_while_refed', id=f'c16/refed-{hshape}-g{gap}-t{t}-s{pre_sleep}', cfg=dict(cfg, cap=3000, max_points=200, busy_timers=0 if gap else 1, window=0.45, bound=2), params=dict(state='refed', tmo=t),
                             scn=dict(buses={'A': {}}, order=['A'], handlers=hs, main=main, actors=[producer], forwards=[], settle=1.5, join_actors=False)))
     # stop() called again on a bus that was already stopped (teardown code typically does), with and without a positive timeout, while a backlog is left over
     for (sname, names, hs, pre), t1, t2, gap in itertools.product(_states(deep), (None, 0), (0.3, None, 0), ('pause', 'sleep')):
